@@ -155,7 +155,7 @@ func genDDLCase(t *rapid.T) DDLCase {
 	if rapid.Bool().Draw(t, "prefix") {
 		c.Opts = append(c.Opts, rapid.SampledFrom([]string{"s3_prefix='/p1'", "s3_prefix=p2", "s3_prefix='a/b/'", "s3_prefix=\"q\""}).Draw(t, "prefixv"))
 	}
-	c.OptOrder = rapid.Permutation(seq(len(c.Opts) + 3)).Draw(t, "order")
+	c.OptOrder = rapid.Permutation(seq(len(c.Opts)+3)).Draw(t, "order")
 	if rapid.IntRange(0, 1).Draw(t, "mutate") == 0 {
 		c.Mutation = rapid.SampledFrom([]string{
 			"unknown-option", "duplicate-option", "option-without-value", "non-numeric-epn", "non-numeric-cache",
